@@ -1,5 +1,6 @@
 """C12 — generation is a deterministic function of the input files."""
 from engine.rulekit import facts as factsmod
+from engine.rulekit import inline as I
 from engine.rulekit import mir as M
 from engine.rulekit import scans
 
@@ -20,6 +21,32 @@ def cycle_blocks(B, bb):
     return {x for x in fwd if bb in B.reachable_from(x)}
 
 
+CRATE = None   # set by run(): the crate whose closures / helpers are looked up
+
+
+def closure_only_resets(B, operand):
+    """The closure literal passed as operand does nothing but store constants into atomic flags (helpers it calls inlined)."""
+    for o in M.trace(B, operand, ()):
+        if o.kind == "aggregate" and o.rv.get("closure") and CRATE is not None:
+            CB = I.inlined_body(CRATE, o.rv["closure"])
+            if CB is None:
+                return False, "closure body not available"
+            n_store = 0
+            for bb, t in CB.calls():
+                d = M.Body.callee_decl(t) or ""
+                if d == ATOMIC_STORE:
+                    vals = M.trace(CB, t["args"][1], M.IDENTITY_CALLS)
+                    if not vals or any(v.kind != "const" for v in vals):
+                        return False, "a non-constant value is stored by the closure"
+                    n_store += 1
+                    continue
+                if d.startswith("std::sync::atomic::Ordering::"):
+                    continue
+                return False, f"the closure calls {d}"
+            return (n_store > 0), "closure body only stores constants into atomic flags"
+    return False, "the consumer of the iterator is not a closure literal"
+
+
 def order_insensitive_loop(B, iter_bb):
     """The hash iterator created in block iter_bb only drives a loop whose body stores constants into
     AtomicBool flags (resetting flags is independent of the visiting order). Returns (ok, why)."""
@@ -28,6 +55,11 @@ def order_insensitive_loop(B, iter_bb):
         for o in M.trace(B, t["args"][0], ITER_IDENT):
             if o.kind == "call" and o.bb == iter_bb:
                 nexts.append((bb, t))
+    if not nexts:
+        # iterator adaptor form: `map.values().for_each(|f| f.flag.store(CONST))`
+        for bb, t in B.calls_to("iter::Iterator::for_each"):
+            if any(o.kind == "call" and o.bb == iter_bb for o in M.trace(B, t["args"][0], ITER_IDENT)):
+                return closure_only_resets(B, t["args"][1])
     if len(nexts) != 1:
         return False, "the iterator is not consumed by exactly one `for` loop"
     nbb, nt = nexts[0]
@@ -42,8 +74,8 @@ def order_insensitive_loop(B, iter_bb):
             if d.endswith("iter::Iterator::next"):
                 continue
             if d == ATOMIC_STORE:
-                v = t["args"][1]
-                if v.get("k") != "const":
+                vals = M.trace(B, t["args"][1], M.IDENTITY_CALLS)
+                if not vals or any(v.kind != "const" for v in vals):
                     return False, "a non-constant value is stored inside the loop"
                 continue
             if d.startswith("std::sync::atomic::Ordering::"):
@@ -69,6 +101,8 @@ def run(ck, F):
                   "`false` into each FileContent.processed) and that loop dominates the first load of a flag")
     ck.rule("R3", "no ambient inputs: no SystemTime/Instant/env::var*/thread::current/RandomState/rand in zeep-lib")
     ck.rule("R4", "the file table is only accessed by key (see C11.R3)")
+    global CRATE
+    CRATE = F.lib
     # ---- R1
     hits = [h for h in scans.scan_hash_iteration(F.lib) if in_scope(h[0])]
     ck.count("bodies scanned", sum(1 for _ in scans.bodies(F.lib)))
@@ -144,13 +178,22 @@ def rule_reset_on_entry(ck, F):
         if not (reach & loaders):
             continue
         n += 1
-        B = M.Body(b)
+        B = I.inlined_body(F.lib, b["path"])
         stores = []
         for bb, t in B.calls_to(ATOMIC_STORE):
             os_ = M.trace(B, t["args"][0])
-            val = t["args"][1]
-            if any("processed" in o.fields() for o in os_) and val.get("k") == "const" and str(val.get("text")).strip() in ("false", "const false"):
+            vals = M.trace(B, t["args"][1], M.IDENTITY_CALLS)
+            if any("processed" in o.fields() for o in os_) and vals and all(
+                    v.kind == "const" and str(v.const.get("text")).strip() in ("false", "const false") for v in vals):
                 stores.append(bb)
+        # closure form of the reset: <file table>.values().for_each(|f| f.processed.store(false))
+        closure_heads = []
+        for bb, t in B.calls_to("iter::Iterator::for_each"):
+            src = [o for o in M.trace(B, t["args"][0], ITER_IDENT) if o.kind == "call"]
+            over_table = any(f == "map" for o in src for oo in M.trace(B, o.term["args"][0]) for f in oo.fields())
+            okc, _why = closure_only_resets(B, t["args"][1])
+            if over_table and okc and _closure_stores_false(B, t["args"][1]):
+                closure_heads.append(bb)
         # the store must sit in a loop over all entries of the file table, and that loop must dominate every call that can load
         ok = False
         why = "no store of `false` into the processed flags on entry"
@@ -171,11 +214,13 @@ def rule_reset_on_entry(ck, F):
                 why = "the reset loop does not range over the file table"
                 continue
             head = min(cyc)
-            later = [(bb, t) for bb, t in B.calls() if (M.Body.callee(t) or "") in reach and ((M.Body.callee(t) or "") in loaders
-                     or scans.reachable(g, [M.Body.callee(t) or ""]) & loaders)]
-            bad = [bb for bb, t in later if not B.dominates(head, bb) or bb in cyc]
-            if bad:
+            if _reads_after(B, head, cyc, reach, loaders, g):
                 why = "a call that reads the flags is not dominated by the reset loop"
+                continue
+            ok = True
+        for hbb in closure_heads:
+            if _reads_after(B, hbb, {hbb}, reach, loaders, g):
+                why = "a call that reads the flags is not dominated by the reset"
                 continue
             ok = True
         if ok:
@@ -185,3 +230,25 @@ def rule_reset_on_entry(ck, F):
                          f"{b['path']} can read processed flags left over from an earlier call on the same FilesToRead ({why}): "
                          f"a repeated call returns a different (empty) document", fn=b["path"])
     ck.floor("R2", "public entry points reaching the flags", n, 1)
+
+
+def _reads_after(B, head, inside, reach, loaders, g):
+    """Blocks that can read a processed flag (directly, or through a call that reaches a loader) without being dominated by head."""
+    later = [bb for bb, t in B.calls() if ((M.Body.callee(t) or "") in loaders or scans.reachable(g, [M.Body.callee(t) or ""]) & loaders)]
+    for bb, t in B.calls_to(ATOMIC_LOAD):
+        if any("processed" in o.fields() for o in M.trace(B, t["args"][0])):
+            later.append(bb)
+    return [bb for bb in later if bb not in inside and (not B.dominates(head, bb))] + [bb for bb in later if bb in inside and bb != head]
+
+
+def _closure_stores_false(B, operand):
+    for o in M.trace(B, operand, ()):
+        if o.kind == "aggregate" and o.rv.get("closure"):
+            CB = I.inlined_body(CRATE, o.rv["closure"])
+            for bb, t in CB.calls_to(ATOMIC_STORE):
+                tgt = M.trace(CB, t["args"][0])
+                vals = M.trace(CB, t["args"][1], M.IDENTITY_CALLS)
+                if any("processed" in x.fields() for x in tgt) and vals and all(
+                        v.kind == "const" and str(v.const.get("text")).strip() in ("false", "const false") for v in vals):
+                    return True
+    return False
